@@ -113,7 +113,7 @@ func allScenarios() []*scenario {
 }
 
 var quickSets = map[string][]string{
-	"C04": {"S1-empty", "S1-one", "S2", "S5", "S8", "S14", "S9", "S1-one@s256", "S10", "S18-reject", "S19-span", "S3", "S12", "S16", "S2@s256", "S20", "S21", "S15-crash"},
+	"C04": {"S1-empty", "S1-one", "S2", "S5", "S8", "S14", "S9", "S1-one@s256", "S10", "S18-reject", "S19-span", "S3", "S12", "S16", "S2@s256", "S20", "S21", "S15-crash", "S7-close", "S7-clean", "S7-close-partial", "S17-gc-empty", "S6p", "S16c"},
 	"C05": {"S1-one", "S2", "S3", "S4", "S4b", "S16c", "S20", "S21", "S18-reject", "S19-span", "S6p", "S6q-b2", "S7-close-partial", "F1-fault-compact-add", "F2-fault-add-add", "S5", "S7-close", "S7-clean", "S13", "S15-crash", "S16"},
 	"C08": {"S1-one", "S2", "S4b", "S5", "S5b", "S8", "S7-clean", "S20", "S21", "F1-fault-compact-add", "F2-fault-add-add", "F3-fault-range-range"},
 	"C10": {"S6", "S6p", "S6o", "S6q-b2", "S1-one", "S12", "S6-3", "S6p@s256", "S6r", "S16c"},
